@@ -20,7 +20,7 @@ public member of Problem is delegated by ProblemWrapper to the wrapped problem a
 overrides a delegated member without delegating; (R16.6) `_inner` is stored only by constructors and
 get_function_problem recurses on it; (R16.7) the precision-reached stop condition reads the sticky flag.
 """
-CLAIM = """Decides the whole property structurally for the shipped wrappers: per-path effect summaries of every evaluate (all acyclic paths, super() composed): arguments and result forwarded unchanged, exactly one forward per forwarding path, counter += 1 iff forwarded, the cutoff's only refusing path guarded by counter >= cutoff with the direction's worst sentinel, precision ETA read from the counter after the counted forward under first-hit and precision guards, sticky flag; delegation of every public Problem member by ProblemWrapper (exhaustiveness) and no breaking override. Stacks of any depth follow by induction because each wrapper is checked against an arbitrary inner Problem. Round-3/4 extensions: completeness of the ETA store (every forwarding path that skips it is taken only after a hit or outside the precision); forwards made through a helper that is handed the bound evaluate."""
+CLAIM = """Decides the whole property structurally for the shipped wrappers: per-path effect summaries of every evaluate (all acyclic paths, super() composed): arguments and result forwarded unchanged, exactly one forward per forwarding path, counter += 1 iff forwarded, the cutoff's only refusing path guarded by counter >= cutoff with the direction's worst sentinel, precision ETA read from the counter after the counted forward under first-hit and precision guards, sticky flag; delegation of every public Problem member by ProblemWrapper (exhaustiveness) and no breaking override. Stacks of any depth follow by induction because each wrapper is checked against an arbitrary inner Problem. Round-3/4 extensions: completeness of the ETA store (every forwarding path that skips it is taken only after a hit or outside the precision); forwards made through a helper that is handed the bound evaluate. Round 5: the first hit must be the TRUE outcome of `|f - opt| <= eps` (the false outcome of `>` also holds for NaN); a hit flag derived from ETA by a property is undecided."""
 NOTE = """The wrapped objective is a function of its argument. Wrapper bodies are loop-free (checked). Numeric value of |f - opt| <= eps is not evaluated."""
 TECHNIQUE = "per-path effect summaries over hand-built CFGs (ast) + interface exhaustiveness check"
 ASSUMPTIONS = ["the wrapped objective is a function of its argument", "wrapper evaluate bodies are loop-free (checked; a loop is reported as inconclusive)"]
@@ -138,9 +138,23 @@ def r16_2(ctx: Ctx):
                         obs.append(ctx.ob("R16.2", f, n, status=OK if ok else VIOLATION, detail="counter starts at 0" if ok else "counter does not start at 0"))
                     elif in_wrapper and f.name == "evaluate":
                         continue
+                    elif in_wrapper and f.qualname in _evaluate_hooks(ctx):
+                        continue  # a private hook that only the wrappers' evaluate runs (template method): part of evaluate
                     elif owners or in_wrapper:
                         obs.append(ctx.ob("R16.2", f, n, status=VIOLATION, detail=f"evaluation counter written outside __init__/evaluate: {norm(n)}"))
     return obs
+
+
+def _evaluate_hooks(ctx) -> set:
+    """private methods of Problem classes whose only callers are the evaluate methods of Problem classes (or other such hooks)"""
+    if getattr(ctx, "_eval_hooks", None) is not None:
+        return ctx._eval_hooks
+    from .common import private_closure
+
+    base = ctx.prog.cls("Problem")
+    roots = {m.qualname for ci in ctx.prog.classes.values() if ci is base or ctx.prog.is_subclass(ci, base) for m in [ci.methods.get("evaluate")] if m is not None}
+    ctx._eval_hooks = private_closure(ctx, set(roots)) - roots
+    return ctx._eval_hooks
 
 
 def _prop_aliases(ctx, ci) -> dict:
@@ -481,7 +495,7 @@ def r16_4(ctx: Ctx):
                     else:
                         ok = isinstance(val, ast.Constant) and val.value is True and f2.cls is ci
                         obs.append(ctx.ob("R16.4", f2, n, status=OK if ok else VIOLATION, detail="flag only ever set to True" if ok else f"hit_precision can be un-set or is written from outside: {norm(n)}"))
-                if isinstance(t, ast.Attribute) and t.attr == "ETA" and isinstance(t.ctx, ast.Store) and not (f2.cls is ci and f2.name in ("__init__", "evaluate")):
+                if isinstance(t, ast.Attribute) and t.attr == "ETA" and isinstance(t.ctx, ast.Store) and not (f2.cls is ci and f2.name in ("__init__", "evaluate")) and not (f2.cls is ci and f2.qualname in _evaluate_hooks(ctx)):
                     obs.append(ctx.ob("R16.4", f2, n, status=VIOLATION, detail=f"ETA written outside the precision wrapper: {norm(n)}"))
     return obs
 
@@ -496,6 +510,9 @@ def r16_5(ctx: Ctx):
         raise AnalysisError(f"Problem has only {len(public)} public members")
     for name in public:
         m = wrap.methods.get(name)
+        if m is None and any(isinstance(y, (ast.Assign, ast.AnnAssign)) and any(isinstance(t, ast.Name) and t.id == name for t in (y.targets if isinstance(y, ast.Assign) else [y.target])) for y in wrap.node.body):
+            obs.append(ctx.ob("R16.5", wrap, wrap.node, status=INCONCLUSIVE, detail=f"ProblemWrapper defines `{name}` by a class-level assignment (a generated property / descriptor): what it reads is not followed", construct=f"delegate:{name}"))
+            continue
         if m is None:
             obs.append(ctx.ob("R16.5", wrap, wrap.node, status=VIOLATION, detail=f"ProblemWrapper does not delegate `{name}`: the base-class default is used instead of the wrapped problem's", construct=f"delegate:{name}"))
             continue
@@ -503,6 +520,9 @@ def r16_5(ctx: Ctx):
             obs.append(ctx.ob("R16.5", m, m.node, detail="evaluate delegation is decided by R16.1", construct="delegate:evaluate"))
             continue
         ok = _delegates(m, name)
+        if not ok and _delegation_undecided(m, name):
+            obs.append(ctx.ob("R16.5", m, m.node, status=INCONCLUSIVE, detail=f"ProblemWrapper.{name} reaches the wrapped problem through a helper / a dynamic lookup: whether it returns the wrapped problem's `{name}` of the same arguments is not followed", construct=f"delegate:{name}"))
+            continue
         obs.append(ctx.ob("R16.5", m, m.node, status=OK if ok else VIOLATION, detail=f"`{name}` returns the wrapped problem's `{name}` with unchanged arguments" if ok else f"ProblemWrapper.{name} does not return self._inner.{name}(<same arguments>)", construct=f"delegate:{name}"))
     for ci in ctx.prog.subclasses(wrap):
         for name in public:
@@ -510,8 +530,22 @@ def r16_5(ctx: Ctx):
                 continue
             m = ci.methods[name]
             ok = _delegates(m, name) or _delegates(m, name, via_super=True)
+            if not ok and _delegation_undecided(m, name):
+                obs.append(ctx.ob("R16.5", m, m.node, status=INCONCLUSIVE, detail=f"{ci.name}.{name} reaches the wrapped problem through a helper / a dynamic lookup: not followed", construct=f"override:{ci.name}.{name}"))
+                continue
             obs.append(ctx.ob("R16.5", m, m.node, status=OK if ok else VIOLATION, detail=f"{ci.name}.{name} still delegates" if ok else f"{ci.name} overrides `{name}` without delegating to the wrapped problem", construct=f"override:{ci.name}.{name}"))
     return obs
+
+
+def _delegation_undecided(m, name) -> bool:
+    """the method mentions the wrapped problem (or super()) but not as a direct `self._inner.<name>(...)` / `super().<name>(...)`
+    call whose arguments could be compared: a helper or a getattr stands in between. A body that never mentions them, or that
+    makes the direct call with other arguments, is decided (not delegating)."""
+    selfn = m.self_name()
+    mentions = any((isinstance(x, ast.Attribute) and x.attr == "_inner") or (isinstance(x, ast.Call) and norm(x.func) == "super") for x in ast.walk(m.node))
+    direct = any(isinstance(x, ast.Call) and isinstance(x.func, ast.Attribute) and x.func.attr == name and (is_self_attr(x.func.value, "_inner", selfn) or (isinstance(x.func.value, ast.Call) and norm(x.func.value.func) == "super")) for x in ast.walk(m.node)) or any(isinstance(x, ast.Attribute) and x.attr == name and is_self_attr(x.value, "_inner", selfn) for x in ast.walk(m.node))
+    via_helper = any(isinstance(x, ast.Call) and ((isinstance(x.func, ast.Attribute) and isinstance(x.func.value, ast.Name) and x.func.value.id == selfn and x.func.attr.startswith("_")) or norm(x.func) == "getattr") for x in ast.walk(m.node))
+    return (mentions or via_helper) and not direct and via_helper
 
 
 def _delegates(m, name, via_super=False):
